@@ -104,8 +104,9 @@ class RTDCWriter:
                                     mode=("w" if mode == "reset" else "a"))
         #: unfortunate necessity, as `len(h5py.Group)` can be really slow
         self._group_sizes = {}
-        #: number of valid (non-nan) values in the scalar datasets written
-        #: by this instance (weights for the incremental "mean" attribute)
+        #: dataset size and number of valid (non-nan) values in the scalar
+        #: datasets after this instance wrote to them (weights for the
+        #: incremental "mean" attribute)
         self._valid_counts = {}
 
     def __enter__(self):
@@ -850,9 +851,11 @@ class RTDCWriter:
             # valid, i.e. non-nan, values)
             mean_a = dset.attrs.get("mean", None)
             if mean_a is not None:
-                num_a = self._valid_counts.get(dset.name)
-                if num_a is None:
-                    # dataset not written by this instance: count once
+                size_a, num_a = self._valid_counts.get(dset.name,
+                                                       (None, None))
+                if size_a != offset:
+                    # dataset not written by this instance or modified by
+                    # someone else in the meantime: count once
                     num_a = int(np.sum(~np.isnan(dset[:offset])))
                 num_b = int(np.sum(~np.isnan(data)))
                 if num_b == 0:
@@ -866,7 +869,7 @@ class RTDCWriter:
                 mean = np.nanmean(dset)
                 num_a = 0
                 num_b = int(np.sum(~np.isnan(dset)))
-            self._valid_counts[dset.name] = num_a + num_b
+            self._valid_counts[dset.name] = (dset.shape[0], num_a + num_b)
             dset.attrs["mean"] = mean
         else:
             chunk_size = dset.chunks[0]
